@@ -176,10 +176,16 @@ func c09Searches(tier string) []named {
 	// not touch it)
 	init3 := []Letter{ls[0], {K: kParams, S: 0, P: pOK}, {K: kElect, S: 0, ID: ID{Lo: 2}}, {K: kOps, S: 0, Ops: []OpT{{entry("ADD v4->1"), stOwn}}}}
 	o3 := &Options{Letters: ls, Sessions: n, Checks: Checks{Protocol: true}, Init: init3}
+	// ... and with a FORMER primary still connected that holds the same election id as the primary (session 1 took
+	// over with an equal id and has an operation held): a violation by the former primary must not touch it either
+	open1 := Letter{Name: "s1 open", K: kOpen, S: 1}
+	init4 := []Letter{ls[0], {K: kParams, S: 0, P: pOK}, {K: kElect, S: 0, ID: ID{Lo: 2}}, open1, {K: kParams, S: 1, P: pOK}, {K: kElect, S: 1, ID: ID{Lo: 2}}, {K: kOps, S: 1, Ops: []OpT{{entry("ADD v4->1"), stOwn}}}}
+	o4 := &Options{Letters: ls, Sessions: n, Checks: Checks{Protocol: true}, Init: init4}
 	return []named{
 		{fmt.Sprintf("modify-streams/%d-sessions", n), o, depth},
 		{fmt.Sprintf("modify-streams/%d-sessions/from-primary-established", n), o2, depth - 1},
 		{fmt.Sprintf("modify-streams/%d-sessions/from-primary-with-held-operation", n), o3, depth - 2},
+		{fmt.Sprintf("modify-streams/%d-sessions/from-equal-id-takeover-with-held-operation", n), o4, depth - 3},
 	}
 }
 
